@@ -374,6 +374,7 @@ func run(r *core.Run) {
 	for _, t := range ts {
 		r.Nontrivial(t.ID)
 		a, b := base[t.ID], ballast[t.ID]
+		r.Outcome(transcriptKind(a))
 		r.AddEvals(2)
 		r.AddTransitions(1)
 		if a != b {
@@ -465,6 +466,19 @@ func run(r *core.Run) {
 	r.Sample(kase{ts[0], []string{"validators", "gensyms"}, "history"})
 	r.Sample(kase{ts[len(ts)/2], nil, "process"})
 	r.Sample(kase{ts[len(ts)-1], []string{"errors"}, "history"})
+}
+
+// transcriptKind classifies a transcript for the "distinct outcomes" count: value or error condition, with or
+// without printed output.
+func transcriptKind(t string) string {
+	k := "value"
+	if strings.HasPrefix(t, "ERR<") {
+		k = "error:" + strings.SplitN(strings.TrimPrefix(t, "ERR<"), ":", 2)[0]
+	}
+	if !strings.Contains(t, ` out="" `) {
+		k += "+output"
+	}
+	return k
 }
 
 func trunc(s string, n int) string {
